@@ -13,7 +13,7 @@ from .contracts_rt import Contract, RecSpec
 from . import solve
 
 VERIF = os.path.dirname(os.path.dirname(os.path.abspath(__file__)))
-CONTRACT_MODULES = ["schema", "writer", "enclosing", "month", "library", "model", "entrypoint", "interpolate", "fieldorder"]
+CONTRACT_MODULES = ["schema", "writer", "enclosing", "month", "library", "model", "entrypoint", "interpolate", "fieldorder", "splitter"]
 
 
 def load_contracts(modules=None):
@@ -77,6 +77,10 @@ def make_engine(modules=None, repo=None):
     for name, (node, args, ret) in reg["recs"].items():
         eng.rec_funcs[name] = RecSpec(name, node, args, ret)
     eng.lemmas = dict(reg["lemmas"])
+    if any(getattr(c, "uses_marks", False) for c in contracts.values()) or any(d.get("uses_marks") for d in eng.lemmas.values()):
+        from . import marks
+        if not any(a_.eq(marks.axioms()[0]) for a_ in eng.global_axioms):
+            eng.global_axioms += marks.axioms()
     eng.const_dump = {}
     eng._const_dump_loader = lambda: dump_constants(repo)
     return eng
